@@ -2,7 +2,9 @@
    ExRoundtrip.v, ExTokok.v. *)
 From Coq Require Import List NArith Bool Arith Lia.
 From Verif Require Import lib.Quote model.ExSyntax model.ExLexer model.ExParser model.ExPrinter gen.GrammarE3
-  proofs.QuoteProofs proofs.ExPrintProofs proofs.ExLexerProofs proofs.ExRoundtrip proofs.ExTokok.
+  model.ExScanner model.ExRefactor model.ExTemplate
+  proofs.QuoteProofs proofs.ExPrintProofs proofs.ExLexerProofs proofs.ExRoundtrip proofs.ExTokok
+  proofs.ExScannerProofs proofs.ExRefactorProofs.
 Import ListNotations.
 Open Scope N_scope.
 
@@ -38,3 +40,27 @@ Proof.
     replace ((65 <=? c + 32) && (c + 32 <=? 90)) with false by lia. reflexivity. }
   eexists. eexists. split; [vm_compute; reflexivity|]. split; [vm_compute; reflexivity|]. vm_compute. discriminate.
 Qed.
+
+(* refactor.Template with a transformation that reports "unchanged" returns the template verbatim *)
+Theorem identity_verbatim_stmt : forall (isln : N -> bool) (lower : N -> N) (printable : N -> bool) tops s,
+  isln 0 = false -> nulfree s ->
+  exists out errs inside,
+    refactor_template isln lower printable (fun _ => None) tops s = Ok (out, errs, inside)
+    /\ (inside = true -> out = s).
+Proof. intros isln lower printable tops s H0 Hn. exact (refactor_unchanged_verbatim isln lower H0 printable tops s Hn). Qed.
+
+(* ContextRefRename changes exactly the matching references *)
+Theorem rename_exact_stmt : forall (is_from : ExSyntax.text -> bool) (to : ExSyntax.text) e,
+  refs (rename is_from to e) = map (fun n => if is_from n then to else n) (refs e)
+  /\ erase (rename is_from to e) = erase e
+  /\ (existsb is_from (refs e) = false -> rename is_from to e = e /\ rename_tx is_from to e = None).
+Proof.
+  intros is_from to e. destruct (rename_exact is_from to e) as [H1 H2]. split; [exact H1|]. split; [exact H2|].
+  intros H. split; [apply rename_no_match; exact H|]. unfold rename_tx. rewrite H. reflexivity.
+Qed.
+
+(* the normalised tree evaluates like the original (fragment of model/ExTemplate.v) *)
+Theorem eval_preserved_stmt : forall (lower : N -> N) ctx e,
+  (forall c, lower (lower c) = lower c) ->
+  eval_frag lower ctx (norm lower e) = eval_frag lower ctx e.
+Proof. intros lower ctx e H. apply eval_frag_norm. exact H. Qed.
